@@ -1,4 +1,144 @@
-/- helper lemmas for the compile_correct theorems of Thm/C04.lean -/
-import YaraModel.Lemmas.Cond
+/- helper lemmas for the compile_correct theorems of Thm/C04.lean: execution sequences, code placement -/
+import YaraModel.Lemmas.CondVals
 namespace YaraModel.CondCompile
+open YaraModel YaraModel.C YaraModel.Cond YaraModel.CondVm YaraModel.Gen.VmOps
+
+/-! ### execution sequences -/
+
+def stepAt (env : Env) (code : List Instr) (s : St) : Option St :=
+  match code[s.pc]? with
+  | some i => step env i s
+  | none => none
+
+def runN (env : Env) (code : List Instr) : Nat → St → Option St
+  | 0, s => some s
+  | n + 1, s => (stepAt env code s).bind (runN env code n)
+
+/-- `s` reaches `s'` in finitely many VM steps -/
+def Steps (env : Env) (code : List Instr) (s s' : St) : Prop := ∃ n, runN env code n s = some s'
+
+theorem runN_add (env : Env) (code : List Instr) (m n : Nat) (s : St) :
+    runN env code (m + n) s = (runN env code m s).bind (runN env code n) := by
+  induction m generalizing s with
+  | zero => simp [runN]
+  | succ m ih =>
+    rw [Nat.succ_add]
+    simp only [runN]
+    cases stepAt env code s with
+    | none => rfl
+    | some s1 => simp [ih]
+
+theorem Steps.refl (env : Env) (code : List Instr) (s : St) : Steps env code s s := ⟨0, rfl⟩
+
+theorem Steps.trans {env : Env} {code : List Instr} {a b c : St}
+    (h1 : Steps env code a b) (h2 : Steps env code b c) : Steps env code a c := by
+  obtain ⟨m, hm⟩ := h1
+  obtain ⟨n, hn⟩ := h2
+  exact ⟨m + n, by rw [runN_add, hm]; exact hn⟩
+
+theorem Steps.one {env : Env} {code : List Instr} {s s' : St} {i : Instr}
+    (hi : code[s.pc]? = some i) (hs : step env i s = some s') : Steps env code s s' :=
+  ⟨1, by simp [runN, stepAt, hi, hs]⟩
+
+/-- the executable, fuel-bounded `run` follows the step relation to the end of the code -/
+theorem run_of_runN (env : Env) (code : List Instr) (n : Nat) (s s' : St)
+    (h : runN env code n s = some s') (hend : s'.pc = code.length) :
+    run env code.toArray (n + 1) s = some s' := by
+  induction n generalizing s with
+  | zero =>
+    simp only [runN, Option.some.injEq] at h
+    subst h
+    simp [run, hend]
+  | succ n ih =>
+    simp only [runN, stepAt] at h
+    unfold run
+    cases hc : code[s.pc]? with
+    | none => simp [hc] at h
+    | some i =>
+      simp only [hc] at h
+      have : code.toArray[s.pc]? = some i := by simpa using hc
+      simp only [this]
+      cases hs : step env i s with
+      | none => simp [hs] at h
+      | some s1 =>
+        simp only [hs, Option.bind_some] at h
+        exact ih s1 h
+
+/-! ### code placement -/
+
+/-- the fragment `frag` sits in `code` at instruction index `pc` -/
+def CodeAt (code : List Instr) (pc : Nat) (frag : List Instr) : Prop :=
+  ∃ pre post, code = pre ++ frag ++ post ∧ pre.length = pc
+
+theorem CodeAt.left {code : List Instr} {pc : Nat} {f1 f2 : List Instr}
+    (h : CodeAt code pc (f1 ++ f2)) : CodeAt code pc f1 := by
+  obtain ⟨pre, post, hc, hl⟩ := h
+  exact ⟨pre, f2 ++ post, by simp [hc], hl⟩
+
+theorem CodeAt.right {code : List Instr} {pc : Nat} {f1 f2 : List Instr}
+    (h : CodeAt code pc (f1 ++ f2)) : CodeAt code (pc + f1.length) f2 := by
+  obtain ⟨pre, post, hc, hl⟩ := h
+  exact ⟨pre ++ f1, post, by simp [hc], by simp [hl]⟩
+
+theorem CodeAt.head {code : List Instr} {pc : Nat} {i : Instr} {rest : List Instr}
+    (h : CodeAt code pc (i :: rest)) : code[pc]? = some i := by
+  obtain ⟨pre, post, hc, hl⟩ := h
+  subst hc; subst hl
+  simp
+
+theorem CodeAt.tail {code : List Instr} {pc : Nat} {i : Instr} {rest : List Instr}
+    (h : CodeAt code pc (i :: rest)) : CodeAt code (pc + 1) rest := by
+  have := CodeAt.right (f1 := [i]) (f2 := rest) (by simpa using h)
+  simpa using this
+
+theorem CodeAt.whole (code : List Instr) : CodeAt code 0 code := ⟨[], [], by simp, rfl⟩
+
+/-! ### running code fragments
+
+`Runs env code frag P vs`: wherever `frag` is placed in `code`, started with the pc at its first instruction and a
+loop memory satisfying `P`, the VM reaches the end of the fragment having pushed `vs` (top first) and changed
+nothing else. -/
+
+def Runs (env : Env) (code : List Instr) (frag : List Instr) (P : List Int → Prop) (vs : List Int) : Prop :=
+  ∀ pc s, CodeAt code pc frag → s.pc = pc → P s.mem →
+    Steps env code s { s with pc := pc + frag.length, stack := vs ++ s.stack }
+
+theorem Runs.nil (env : Env) (code : List Instr) (P : List Int → Prop) : Runs env code [] P [] := by
+  intro pc s _ hpc _
+  have : ({ s with pc := pc + ([] : List Instr).length, stack := [] ++ s.stack } : St) = s := by
+    cases s; simp_all
+  rw [this]; exact Steps.refl _ _ _
+
+theorem Runs.seq {env : Env} {code f1 f2 : List Instr} {P : List Int → Prop} {v1 v2 : List Int}
+    (h1 : Runs env code f1 P v1) (h2 : Runs env code f2 P v2) : Runs env code (f1 ++ f2) P (v2 ++ v1) := by
+  intro pc s hc hpc hP
+  have s1 := h1 pc s hc.left hpc hP
+  have s2 := h2 (pc + f1.length) { s with pc := pc + f1.length, stack := v1 ++ s.stack } hc.right rfl hP
+  have := Steps.trans s1 s2
+  simpa [Nat.add_assoc] using this
+
+/-- an instruction that only pushes a word determined by the loop memory -/
+theorem Runs.push1 {env : Env} {code : List Instr} {P : List Int → Prop} (i : Instr) (v : Int)
+    (h : ∀ s, P s.mem → step env i s = some { s with pc := s.pc + 1, stack := v :: s.stack }) :
+    Runs env code [i] P [v] := by
+  intro pc s hc hpc hP
+  have hi : code[s.pc]? = some i := by rw [hpc]; exact hc.head
+  have := Steps.one hi (h s hP)
+  simpa [hpc] using this
+
+/-- an instruction that replaces the `n` top words produced by `f` by one word -/
+theorem Runs.op {env : Env} {code f : List Instr} {P : List Int → Prop} (i : Instr) (args : List Int) (r : Int)
+    (hf : Runs env code f P args)
+    (h : ∀ s : St, step env i { s with stack := args ++ s.stack } =
+        some { s with pc := s.pc + 1, stack := r :: s.stack }) :
+    Runs env code (f ++ [i]) P [r] := by
+  intro pc s hc hpc hP
+  have s1 := hf pc s hc.left hpc hP
+  have hi : code[pc + f.length]? = some i := hc.right.head
+  have h2 := h { s with pc := pc + f.length }
+  have s2 : Steps env code { s with pc := pc + f.length, stack := args ++ s.stack }
+      { s with pc := pc + f.length + 1, stack := r :: s.stack } := Steps.one (by simpa using hi) (by simpa using h2)
+  have := Steps.trans s1 s2
+  simpa [Nat.add_assoc] using this
+
 end YaraModel.CondCompile
